@@ -47,8 +47,8 @@ package cache
 //@ func (*Cache) CheckExpirations$1(key K, value *Element) (cont bool)
 //@   requires c != nil && c.Map != nil && value != nil
 //@   opaque-calls pure
-//@   inline-call Delete
+//@   inline-call ReplaceWithFunc
 //@   lockinv [no-nil-elements] forall k int :: {present(c.Map.data, k)} present(c.Map.data, k) ==> c.Map.data[k] != nil
 //@   cs-pure mapUnchanged(c.Map.data)
-//@   atomic [removes-only-expired] mapUnchanged(c.Map.data) || !old(present(c.Map.data, key)) || expiredAt(old(atomicLoad(c.Map.data[key].ValidUntil)), now)
+//@   atomic [removes-only-expired] mapUnchanged(c.Map.data) || !old(present(c.Map.data, key)) || (old(c.Map.data[key]) == value && expiredAt(old(atomicLoad(c.Map.data[key].ValidUntil)), now))
 //@   atomic [touches-only-key] mapUnchanged(c.Map.data) || mapIsDelete(c.Map.data, key)
